@@ -28,6 +28,9 @@ type Opt struct {
 	CK   int  `json:"ck,omitempty"` // context flavour: 0 random bytes, 1 two-byte UTF-8 runes, 2 three-byte runes, 3 ASCII
 	Zip  bool `json:"z,omitempty"`
 	Form int  `json:"f,omitempty"`
+	// CS != 0: the context bytes are derived from this seed instead of the
+	// op's own (an op that takes over the previous op's options exactly)
+	CS uint64 `json:"cs,omitempty,string"`
 }
 
 func (o Opt) hash() crypto.Hash {
@@ -106,6 +109,9 @@ func resize(b []byte, n int, seed uint64) []byte {
 func (o Opt) ctxBytes(seed uint64) []byte {
 	if o.Ctx <= 0 {
 		return nil
+	}
+	if o.CS != 0 {
+		seed = o.CS
 	}
 	b := seededBytes(o.Ctx, seed, lbl("ctx"))
 	for i := range b { // keep it printable-agnostic but never empty-looking
@@ -1023,6 +1029,11 @@ func boolStr(b bool) string {
 	return "false"
 }
 
+var callerDstArr [zzsimrt.MaxClients][32]byte
+
+//go:norace
+func callerDst() *[32]byte { return &callerDstArr[zzsimrt.Cur()] }
+
 func call(p *Prepared, rd io.Reader, out *Outcome) {
 	op := p.Op
 	switch op.Fn {
@@ -1068,19 +1079,23 @@ func call(p *Prepared, rd io.Reader, out *Outcome) {
 	case "X25519":
 		out.b, out.err = x25519.X25519(p.sc, p.pt)
 	case "ScalarBaseMult":
-		var dst [32]byte
+		// dst is an output-only parameter. A caller may well pass the same
+		// array call after call: each client keeps one for the whole process,
+		// so what an earlier call left in it is part of the process history
+		// (the solo reference starts from zeroes).
+		dst := callerDst()
 		sc := p.scArr
-		x25519.ScalarBaseMult(&dst, &sc)
-		out.b = dst[:]
+		x25519.ScalarBaseMult(dst, &sc)
+		out.b = append([]byte{}, dst[:]...)
 		if sc != p.scArr {
 			out.Err = "scalar argument modified"
 			out.ArgModified = true
 		}
 	case "ScalarMult":
-		var dst [32]byte
+		dst := callerDst()
 		sc, pt := p.scArr, p.ptArr
-		x25519.ScalarMult(&dst, &sc, &pt)
-		out.b = dst[:]
+		x25519.ScalarMult(dst, &sc, &pt)
+		out.b = append([]byte{}, dst[:]...)
 		if sc != p.scArr || pt != p.ptArr {
 			out.Err = "argument modified"
 			out.ArgModified = true
